@@ -154,7 +154,9 @@ def augmentData (elements own counts : List J) (sn : Nat) : R (List J) := do
 
 /-- what is read before anything is written: `none` when the two count vectors have the same
     length (`return self`), else the summary's element list and the new count vector -/
-def augmentPlan (summary resp : J) : R (Option (J × List J)) := do
+def augmentPlan (loads : String → R J) (summaryArg resp : J) : R (Option (J × List J)) := do
+  -- fix F41: the summary may arrive as JSON text or inside a {"value": …} envelope
+  let summary ← cubeResponse loads summaryArg
   let counts ← item (← item resp "result") "counts"
   let scounts ← item (← item summary "result") "counts"
   let n ← len counts
@@ -174,10 +176,10 @@ def augmentWrite (resp elements : J) (data : List J) : R J := do
   modifyPath r2 (fun t => assign t "data" (.arr data)) [.key "result", .key "measures", .key "count"]
 
 /-- what `Cube.augment_response(summary_cube_resp)` does to this cube's response dict;
-    `none` = `return self` (lengths agree).  NB `summary` is the RAW argument object (no envelope
-    removal, no text parsing). -/
-def augmentDict (summary resp : J) : R (Option J) := do
-  match ← augmentPlan summary resp with
+    `none` = `return self` (lengths agree).  `summaryArg` is the raw argument object; since fix F41 it
+    goes through `Cube._cube_response` (text parsed, envelope removed) like any response. -/
+def augmentDict (loads : String → R J) (summaryArg resp : J) : R (Option J) := do
+  match ← augmentPlan loads summaryArg resp with
   | none => pure none
   | some (elements, data) => do pure (some (← augmentWrite resp elements data))
 
@@ -220,7 +222,7 @@ def turnAugment (loads : String → R J) (multi : Bool) (summary : J) (ts : J) (
     let resp ← c0.resp loads
     let single ← isSingleFilterCol resp
     if single && i > 0 then
-      match ← augmentDict summary resp with
+      match ← augmentDict loads summary resp with
       | some resp' => pure (({ c0 with arg := resp' } : CubeSt), writeBack r resp')
       | none => pure (c0, r)
     else pure (c0, r)
